@@ -9,6 +9,9 @@ Scenario (JSON, replayable):
                   | ["pause_writes"] | ["resume_writes"]      (the peer stops / resumes reading: a write the transport accepts does not complete)
                   | ["h2req", path, body|None, end] | ["h2data", k, body, end] | ["h2rst", k] | ["h2goaway"]   (k = k-th h2req)
                   | ["h2preface"]                              (the client preface + SETTINGS on their own, before any request)
+  "preload": n (optional) - the first n client actions happened before the server accepted the connection (their bytes sit in
+            the socket buffer when `TCPServer.run()` starts; only `send` / `h2preface` / `h2req` actions)
+  "sched": k (optional, default 0) - seed of trio's scheduler (the order in which the runnable tasks of one batch run)
   "h2_via": "alpn" (default: TLS with ALPN h2) | "prior" (cleartext, prior knowledge: h11 sees `PRI * HTTP/2.0` and the wrapper switches)
             | "h2c" (cleartext, the first request is ["h2c_req", path]: HTTP/1.1 with `Upgrade: h2c`, answered 101, served as stream 1)
   app scripts: the step lists of harness/core/runner.make_app; instance k runs apps[k % len].
@@ -240,17 +243,35 @@ def _patch_session(worker: str) -> None:
 def _session(worker: str, sc: dict) -> dict:
     install_taps()
     _patch_session(worker)
+    if worker == "trio":
+        # trio runs the tasks of one batch in random order: the order is part of the case (`sched`, default 0), so that a run
+        # in which two tasks race (a timeout of 0 against the reader, say) replays exactly
+        import trio._core._run as _tr
+        _tr._r.seed(int(sc.get("sched") or 0))
     cfg: Dict[str, Any] = {"keep_alive_timeout": sc["T"], "max_app_queue_size": sc.get("cap", 10)}
     if sc.get("server_names"):
         cfg["server_names"] = list(sc["server_names"])
     h2c: List[Any] = [None]
     sids: List[int] = []
 
+    n_pre = int(sc.get("preload") or 0)
+
     async def client(io):
-        rec = _CUR[0]
         if sc.get("fail_at_write") is not None:
             _reset_at_write(io, worker, int(sc["fail_at_write"]))
-        for act in sc["client"]:
+        await perform(io, sc["client"][n_pre:])
+        if h2c[0] is not None:
+            await h2c[0].pump(io)
+        return {"sids": sids}
+
+    async def preload(io):
+        # the first `preload` client actions happened before the server accepted the connection: their bytes are in the socket
+        # buffer when `TCPServer.run()` starts
+        await perform(io, sc["client"][:n_pre])
+
+    async def perform(io, actions):
+        rec = _CUR[0]
+        for act in actions:
             k = act[0]
             if k == "send":
                 await io.send(s2b(act[1]))
@@ -307,13 +328,11 @@ def _session(worker: str, sc: dict) -> dict:
             elif k == "h2goaway":
                 h2c[0].conn.close_connection()
                 await h2c[0].pump(io)
-        if h2c[0] is not None:
-            await h2c[0].pump(io)
-        return {"sids": sids}
 
     fn = R.run_asyncio if worker == "asyncio" else R.run_trio
     alpn = "h2" if sc["proto"] == "h2" and sc.get("h2_via", "alpn") == "alpn" else None      # "prior" / "h2c": cleartext
-    res = fn(cfg, alpn, client, sc["apps"], tail=sc.get("tail", 30.0), terminate_at=sc.get("terminate_at"))
+    res = fn(cfg, alpn, client, sc["apps"], tail=sc.get("tail", 30.0), terminate_at=sc.get("terminate_at"),
+             **({"preload": preload} if n_pre else {}))
     return res
 
 
@@ -411,6 +430,8 @@ def to_trace(res: dict, sc: dict, worker: str) -> Tuple[dict, dict]:
     in_loop = False
     closed = False
     post_close_read = False
+    data_after_close = False
+    term_seen = False
     heads: List[dict] = []
     scripts = sc["apps"]
     # a cleartext connection speaks HTTP/1 (h11 reports its own end-of-input events) until the preface line has arrived
@@ -452,8 +473,14 @@ def to_trace(res: dict, sc: dict, worker: str) -> Tuple[dict, dict]:
     for lab in res["labels"]:
         t, kind = lab[0], lab[1]
         tick(t)
+        if kind == "srvReadClosed":
+            kind, lab = "srvRead", [lab[0], "srvRead", "closed"]      # trio: the read raises ClosedResourceError after the server's own close
         if kind == "srvRead":
-            if closed:
+            if closed and isinstance(lab[2], int) and not isinstance(lab[2], bool) and lab[2] > 0:
+                data_after_close = True
+            if closed and not (isinstance(lab[2], int) and not isinstance(lab[2], bool) and lab[2] > 0):
+                # (bytes that had arrived before the server closed are still handed to the reader - a read that was already under
+                # way when the idle task closed the transport, say: an ordinary `read`)
                 post_close_read = True      # the server's own close reaching its reader: the model's `readerSeesClose`
                 if in_loop and (h2_active or ws_mode):
                     labels.append({"op": "needData"})
@@ -520,6 +547,10 @@ def to_trace(res: dict, sc: dict, worker: str) -> Tuple[dict, dict]:
                 names = sc.get("server_names")
                 name_ok = True if not names else lab[5] in names
                 labels.append({"op": "head", "kind": "http", "keepAlive": True, "nameOk": name_ok, "wsOk": True})
+                if term_seen:
+                    # shutdown has begun: the stream is refused (`reset_stream`), no stream object, no application - not an
+                    # instance; DATA / END_STREAM of it that came in the same read find no stream
+                    continue
                 inst_of_sid[sid] = n_inst
                 inst_of_path[path_key(lab[4])] = n_inst
                 heads.append({"inst": n_inst, "t": t, "kind": "http", "nameOk": name_ok})
@@ -587,6 +618,7 @@ def to_trace(res: dict, sc: dict, worker: str) -> Tuple[dict, dict]:
             labels.append({"op": "resumeWrites"})
         elif kind == "terminated":
             labels.append({"op": "terminate"})
+            term_seen = True
     # WebSocket reads carry no parser event of their own when nothing complete arrived: data before the accept is the 400 path
     labels = _ws_early(labels)
     if in_loop and (h2_active or ws_mode):
@@ -598,6 +630,8 @@ def to_trace(res: dict, sc: dict, worker: str) -> Tuple[dict, dict]:
     proto = "h1" if sc["proto"] == "h2" and sc.get("h2_via", "alpn") != "alpn" and not switched else sc["proto"]
     req = {"cmd": "conn.accept", "cfg": {"proto": proto, "cap": sc.get("cap", 10), "T": int(round(sc["T"] * 1000)), "trio": worker == "trio"},
            "labels": labels}
+    if data_after_close and proto == "h2":
+        req["h2_read_after_close"] = True
     facts = {"heads": heads, "app_inst": app_inst, "inst_of_path": inst_of_path, "n_inst": n_inst}
     return req, facts
 
@@ -684,6 +718,7 @@ def analyse(res: dict, sc: dict, facts: dict) -> dict:
     last_q: Optional[int] = None
     first_put_order: List[int] = []
     puts: Dict[int, list] = {}
+    term0 = False
     for lab in res["labels"]:
         if lab[1] == "qget":
             last_q = lab[2]
@@ -693,8 +728,12 @@ def analyse(res: dict, sc: dict, facts: dict) -> dict:
         elif lab[1] == "h11ev" and lab[2] == "request" and lab[3] != "PRI":
             ctx_inst = n_heads
             n_heads += 1
+        elif lab[1] == "terminated":
+            term0 = True
         elif lab[1] == "h2ev":
-            if lab[2] == "request":
+            if lab[2] == "request" and term0:
+                pass            # refused during shutdown: not an instance (see to_trace)
+            elif lab[2] == "request":
                 sid_inst[lab[3]] = n_heads
                 ctx_inst = n_heads
                 n_heads += 1
@@ -874,9 +913,16 @@ def app_script(kind: str, d: float) -> list:
     raise ValueError(kind)
 
 
+def _ms(x: float) -> float:
+    """a duration derived from the timeout (T / 2, 0.6 T …) as whole milliseconds, rounded up: the observations are in
+    milliseconds of virtual time, a history must not contain instants between two of them (only T = 1 ms is affected)"""
+    import math
+    return math.ceil(x * 1000 - 1e-6) / 1000
+
+
 def pauses(rng, T: float) -> float:
     eps = 0.001
-    return rng.choice([0.0, 0.0, eps, 0.01, max(T - eps, 0.0), T, T + eps, 2 * T, T / 2])
+    return rng.choice([0.0, 0.0, eps, 0.01, max(T - eps, 0.0), T, T + eps, 2 * T, _ms(T / 2)])
 
 
 def h1_req_bytes(k: int, method: str = "GET", body_len: int = 0, close: bool = False, version: str = "1.1", host: str = "x") -> Tuple[str, List[str]]:
@@ -912,7 +958,7 @@ def gen_h1(rng, T: float, aggressive_close: bool = True) -> dict:
         host = "good" if names is None or rng.random() < 0.6 else "bad"
         head, chunks = h1_req_bytes(k, method, blen, close, version, host)
         kind = rng.choice(APP_KINDS)
-        apps.append(app_script(kind, rng.choice([0.01, 1.0, T / 2, T + 0.5])))
+        apps.append(app_script(kind, rng.choice([0.01, 1.0, _ms(T / 2), T + 0.5])))
         if pipelined:
             buf += head + "".join(chunks)
             continue
@@ -929,7 +975,7 @@ def gen_h1(rng, T: float, aggressive_close: bool = True) -> dict:
             client.append(["send", c])
     if pipelined:
         client.append(["send", buf])
-    client.append(["sleep", rng.choice([0.0, 0.01, 1.0, T / 2, T + 1])])
+    client.append(["sleep", rng.choice([0.0, 0.01, 1.0, _ms(T / 2), T + 1])])
     # the close source and where it strikes
     closer = rng.choice(["eof", "eof", "reset", "fail_eof", "none", "none", "terminate"])
     sc: Dict[str, Any] = {"proto": "h1", "T": T, "cap": cap, "server_names": names, "apps": apps, "terminate_at": None}
@@ -938,7 +984,7 @@ def gen_h1(rng, T: float, aggressive_close: bool = True) -> dict:
         ins = [[closer]] if closer != "fail_eof" else [["fail_writes"], ["sleep", rng.choice([0.0, 0.5, 1.5])], ["reset"]]
         client[pos:pos] = ins
     elif closer == "terminate":
-        sc["terminate_at"] = rng.choice([0.0, 0.005, 0.5, 1.0, T / 2, T + 1])
+        sc["terminate_at"] = rng.choice([0.0, 0.005, 0.5, 1.0, _ms(T / 2), T + 1])
     client += [["sleep", 2 * T + 5], ["eof"]]
     sc["client"] = client
     sc["tail"] = 2 * T + 10
@@ -974,7 +1020,7 @@ def gen_ws(rng, T: float) -> dict:
     steps = rng.randrange(0, 4)
     for _ in range(steps):
         if rng.random() < 0.6:
-            client.append(["sleep", rng.choice([0.0, 0.01, 0.5, 1.5, T / 2])])
+            client.append(["sleep", rng.choice([0.0, 0.01, 0.5, 1.5, _ms(T / 2)])])
         what = rng.choice(["msg", "msg", "ping", "close", "eof", "reset"])
         if what == "msg":
             client.append(["send", b2s(wc.message("text", [b"hi"]))])
@@ -991,7 +1037,7 @@ def gen_ws(rng, T: float) -> dict:
             "client": client, "tail": 2 * T + 10, "ws_app": app}
 
 
-def gen_h2(rng, T: float) -> dict:
+def gen_h2(rng, T: float, shutdown: bool = False) -> dict:
     n = rng.choice([1, 2, 2, 3])
     client: List[list] = []
     apps = []
@@ -1000,7 +1046,7 @@ def gen_h2(rng, T: float) -> dict:
         body = rng.choice([None, None, "abc", "x" * 30])
         host = "x" if names is None or rng.random() < 0.6 else "bad"
         client.append(["h2req", f"/r{k}", body, True, host])
-        apps.append(app_script(rng.choice([a for a in APP_KINDS if a != "raise_mid"]), rng.choice([0.01, 1.0, T / 2, T + 0.5])))
+        apps.append(app_script(rng.choice([a for a in APP_KINDS if a != "raise_mid"]), rng.choice([0.01, 1.0, _ms(T / 2), T + 0.5])))
         if rng.random() < 0.6:
             client.append(["sleep", pauses(rng, T)])
     closer = rng.choice(["rst", "rst", "eof", "goaway", "none", "none", "reset", "fail_then_leave"])
@@ -1019,13 +1065,16 @@ def gen_h2(rng, T: float) -> dict:
         pos = rng.randrange(1, len(client) + 1)
         client.insert(pos, ["fail_writes"])
         # (environment: the reading side learns of the loss within keep_alive_timeout of the first failed write)
-        left = 0.9 * T
+        left = _ms(0.9 * T)
         for a in client[pos + 1:] + [["sleep", rng.choice([0.0, 0.5, 1.5])]]:
             if a[0] == "sleep":
                 a[1] = min(a[1], left)
                 left -= a[1]
         client += [["sleep", min(rng.choice([0.0, 0.5, 1.5]), max(left, 0.0))], [rng.choice(["eof", "reset"])]]
     sc: Dict[str, Any] = {"proto": "h2", "T": T, "cap": rng.choice([10, 10, 2]), "server_names": names, "apps": apps, "terminate_at": None}
+    if shutdown and closer == "none" and rng.random() < 0.5:
+        # shutdown begins at some point of the history (idle, or while streams are open); the client does not react to the GOAWAY
+        sc["terminate_at"] = rng.choice([0.0, 0.005, 0.5, 1.0, _ms(T / 2), T + 0.25, T + 1])
     r = rng.random()
     if r < 0.3:
         # cleartext connection, HTTP/2 by prior knowledge: the preface on its own or in one read with the first request
@@ -1070,8 +1119,8 @@ def canonical(T: float) -> List[dict]:
          "apps": [app_script("wait_disconnect", 0), resp]},
         # the client resets the only stream; its streaming application ignores the disconnect and ends the response 0.6 T later
         {**base, "name": "h2_rst_late_finish", "proto": "h2", "client": [["h2req", "/r0", None, True], ["h2rst", 0]],
-         "apps": [app_script("finish_after_disconnect", 0.6 * T)]},
-        {**base, "name": "h1_reset_late_finish", "client": [["send", h0], ["reset"]], "apps": [app_script("finish_after_disconnect", 0.6 * T)]},
+         "apps": [app_script("finish_after_disconnect", _ms(0.6 * T))]},
+        {**base, "name": "h1_reset_late_finish", "client": [["send", h0], ["reset"]], "apps": [app_script("finish_after_disconnect", _ms(0.6 * T))]},
         # cleartext HTTP/2 by prior knowledge: preface and first request in ONE read / the preface on its own first; the response
         # takes longer than the timeout
         {**base, "name": "h2_prior_slow", "proto": "h2", "h2_via": "prior", "client": [["h2req", "/r0", None, True]], "apps": [slow]},
@@ -1080,19 +1129,51 @@ def canonical(T: float) -> List[dict]:
         {**base, "name": "h2c_slow", "proto": "h2", "h2_via": "h2c", "client": [["h2c_req", "/r0"]], "apps": [slow]},
         {**base, "name": "h2c_then_get", "proto": "h2", "h2_via": "h2c", "client": [["h2c_req", "/r0"], ["h2req", "/r1", None, True]], "apps": [resp]},
         # … the preface arrives after the connection has been idle for 0.6 T
-        {**base, "name": "h2_prior_late_preface", "proto": "h2", "h2_via": "prior", "client": [["sleep", 0.6 * T], ["h2preface"], ["h2req", "/r0", None, True]], "apps": [resp]},
+        {**base, "name": "h2_prior_late_preface", "proto": "h2", "h2_via": "prior", "client": [["sleep", _ms(0.6 * T)], ["h2preface"], ["h2req", "/r0", None, True]], "apps": [resp]},
     ]
     # two requests in one read, the reader parks behind the first; its application abandons a response it has started (the
     # connection cannot be recycled: `Closed`, the parked reader must be released and the handler must finish)
     out.append({**base, "name": "pipelined_abandoned", "client": [["send", h0 + h1]], "apps": [app_script("raise_mid", 0)]})
     # the first bytes of the NEXT request's head arrive before the current response is complete (the application answers after
     # min(0.5 s, T / 2)) - in a read of their own or in the read that carried the first request - cut at every point of the head
-    later = app_script("sleep_respond", min(0.5, T / 2))
+    later = app_script("sleep_respond", min(0.5, _ms(T / 2)))
     cuts = range(1, len(h1)) if T == 1 else sorted({1, 4, len(h1) // 2, len(h1) - 3, len(h1) - 1})
     for cut in cuts:
         out.append({**base, "name": f"pipelined_partial_head@{cut}", "client": [["send", h0], ["send", h1[:cut]]], "apps": [later]})
         out.append({**base, "name": f"pipelined_partial_head_one_read@{cut}", "client": [["send", h0 + h1[:cut]]], "apps": [later]})
+    # shutdown begins (`terminate_at`) while nothing / a request / a WebSocket is in progress; the client does not react to it (an
+    # HTTP/2 client that ignores the GOAWAY keeps the connection open and sends nothing).  The response takes T + 0.5 s, shutdown
+    # begins T / 2 + 0.1 s after the accept: with the pause behind the request that is in mid-flight, with a pause of about T
+    # before it the connection is idle (or already closed) when shutdown begins
+    mid = _ms(T / 2) + 0.1
+    out += [
+        {**base, "name": "shutdown_idle", "terminate_at": mid, "client": [], "apps": [resp]},
+        {**base, "name": "h1_shutdown_inflight", "terminate_at": mid, "client": [["send", h0]], "apps": [slow]},
+        {**base, "name": "ws_shutdown_open", "terminate_at": mid, "client": [["send", ws_req]], "apps": [WS_APPS["accept_until_disconnect"]]},
+        {**base, "name": "h2_shutdown_inflight", "proto": "h2", "terminate_at": mid, "client": [["h2req", "/r0", None, True]], "apps": [slow]},
+        {**base, "name": "h2_prior_shutdown_inflight", "proto": "h2", "h2_via": "prior", "terminate_at": mid, "client": [["h2req", "/r0", None, True]], "apps": [slow]},
+        {**base, "name": "h2c_shutdown_inflight", "proto": "h2", "h2_via": "h2c", "terminate_at": mid, "client": [["h2c_req", "/r0"]], "apps": [slow]},
+        # two streams: one has ended before shutdown begins, the other - the last open stream - ends after
+        {**base, "name": "h2_two_shutdown_last_inflight", "proto": "h2", "terminate_at": mid,
+         "client": [["h2req", "/r0", None, True], ["h2req", "/r1", "abc", True]], "apps": [resp, slow]},
+        # … and a streaming response in mid-body when shutdown begins
+        {**base, "name": "h2_shutdown_streaming", "proto": "h2", "terminate_at": mid, "client": [["h2req", "/r0", None, True]],
+         "apps": [app_script("start_sleep_body", T + 0.5)]},
+    ]
+    # the first bytes were sent before the server accepted the connection (they sit in the socket buffer when `TCPServer.run()`
+    # starts: the first read returns them without waiting).  With a timeout of (about) 0 that decides whether a request is served
+    # at all: the idle task started with the connection is due at once and races the reader
+    if T <= 0.001:
+        for h in list(out):
+            if "@" not in h["name"] and h["client"] and h["client"][0][0] in ("send", "h2req", "h2preface"):
+                for sched in (PRELOAD_SCHEDS if T == 0 else PRELOAD_SCHEDS[:1]):
+                    out.append({**h, "name": f"{h['name']}+preloaded" + (f"+sched{sched}" if sched else ""), "preload": 1, "sched": sched})
     return out
+
+
+# trio runs the tasks of one batch in random order; the preloaded histories (reader against an idle task that is due at once) are
+# run under several seeds of its scheduler
+PRELOAD_SCHEDS = (0, 3, 5)
 
 
 def closed_twice_corpus() -> List[dict]:
@@ -1176,7 +1257,10 @@ def with_pause(h: dict, pos: int, d: float, then: Optional[str] = None) -> dict:
     if then:
         c.insert(pos + 1, [then])
     T = h["T"]
-    return {**h, "client": c + [["sleep", 2 * T + 5], ["eof"]], "pause": [pos, d, then]}
+    out = {**h, "client": c + [["sleep", 2 * T + 5], ["eof"]], "pause": [pos, d, then]}
+    if h.get("preload"):
+        out["preload"] = min(int(h["preload"]), pos)      # only what precedes the pause was sent before the accept
+    return out
 
 
 # --------------------------------------------------------------------------------------------------------------
@@ -1262,6 +1346,12 @@ def run_cases(ctx, cases: List[dict], monitor, workers=("asyncio", "trio"), tag:
                 # F08 on HTTP/2: `handle(Closed)` is stuck in its loop before the stream buffers are released, so other
                 # streams' senders hang in drain(); the model does not follow the connection beyond that known defect
                 ctx.count("not_replayed", "f08_h2_" + worker)
+                continue
+            if sc["proto"] == "h2" and rq.get("h2_read_after_close"):
+                # bytes that had arrived before the server closed the transport are handed to the HTTP/2 reader afterwards: what
+                # it does with them ends in a failed flush, and HTTP/2 flushes are not part of the observation (partial, as HTTP/2
+                # write failures in general); judged by the monitors only
+                ctx.count("not_replayed", "h2_read_after_close_" + worker)
                 continue
             pending.append((rq, case, worker, an))
             if len(pending) >= 40:
